@@ -2,6 +2,7 @@ mod ctx;
 mod dispatch;
 mod gj;
 mod ops_affine;
+mod ops_boolops;
 mod ops_c17;
 mod ops_centroid;
 mod ops_distance;
@@ -65,6 +66,8 @@ fn main() {
             match args[2].as_str() {
                 "c18" => ops_c18::record(&mut w, seed, n),
                 "c17" => ops_c17::record(&pool, &mut w, seed, n),
+                "c04" => ops_boolops::record(&pool, &mut w, seed, n),
+                "c04rerun" => ops_boolops::rerun(&pool, &mut w),
                 k => { eprintln!("unknown record kind {k}"); std::process::exit(2); }
             }
             return;
